@@ -10,7 +10,7 @@
    whole remaining input.  Property theorems only; proofs are in Proofs/JsonPlus*.v. *)
 From Verif Require Import Lib.Base Lib.Sx Gen.Gen_json Model.JsonPlus.
 From Verif Require Import Proofs.JsonPlusIndex Proofs.JsonPlusSplit Proofs.JsonPlusScan
-  Proofs.JsonPlusStrip Proofs.JsonPlusTotal Proofs.JsonPlusExamples Proofs.JsonPlusLex.
+  Proofs.JsonPlusStrip Proofs.JsonPlusTotal Proofs.JsonPlusExamples Proofs.JsonPlusLex Proofs.JsonPlusRead.
 Open Scope N_scope.
 
 (* [core] A token the split function returns on a prefix of the input (not at EOF) is returned
@@ -48,6 +48,50 @@ Proof. exact (reader_dt_segmentation segs1 segs2 dt1 dt2). Qed.
 
 Theorem c17_limit : tok_limit = 4611686018427387904.
 Proof. exact tok_limit_value. Qed.
+
+(* [core] The consumer.  [reader_rd segs fin dt rds] is what a consumer receives that calls
+   Read(p) with buffers of the sizes rds (0, 1, smaller than a token, ... -- any list) until the
+   first error or until it stops calling (None); the tokens go through the reader's bytes.Buffer.
+   Whatever the producer's segmentation AND whatever the consumer's buffer sizes: a consumer that
+   stops early holds a prefix of strip of the whole input; one that is told the end holds all of
+   it, with strip's end status.  A consumer whose buffers all have room for a byte is told the
+   end after at most one call per output byte plus one. *)
+Theorem c17_consumer segs dt rds :
+  runs_ok segs -> lenN (concat segs) < tok_limit ->
+  let '(o, r) := strip (concat segs) in
+  let '(d, st) := reader_rd segs 0 dt rds in
+  match st with
+  | None => exists rest, d ++ rest = o
+  | Some r' => d = o /\ r' = r
+  end.
+Proof. exact (reader_rd_strip segs dt rds). Qed.
+
+(* ... and for every way the stream ends, without any guard: the consumer-by-consumer reader
+   agrees with the read-everything reader [reader_dt] of the other theorems *)
+Theorem c17_consumer_any segs fin dt rds :
+  let '(o, r) := reader_dt segs fin dt in
+  let '(d, st) := reader_rd segs fin dt rds in
+  match st with
+  | None => exists rest, d ++ rest = o
+  | Some r' => d = o /\ r' = r
+  end.
+Proof. exact (reader_rd_reader segs fin dt rds). Qed.
+
+Theorem c17_consumer_ends segs fin dt rds :
+  Forall (fun n => 0 < n) rds -> (length (fst (reader_dt segs fin dt)) < length rds)%nat ->
+  snd (reader_rd segs fin dt rds) <> None.
+Proof. exact (reader_rd_ends segs fin dt rds). Qed.
+
+(* [core] Streams that end in a read error (fin <> 0), every segmentation: the reader ends with that
+   very error (the transport's), and the bytes delivered before it are a prefix of what is
+   delivered for the same bytes followed by EOF -- never anything else.  The length of the
+   prefix depends on the segmentation: a token completed only by the scanner's last buffer is
+   held back, because commentReader.Read tests s.Err() before handing it over. *)
+Theorem c17_read_error segs fin dt :
+  fin <> 0 -> runs_ok segs -> lenN (concat segs) < tok_limit ->
+  snd (reader_dt segs fin dt) = Err fin /\
+  exists rest, fst (reader_dt segs fin dt) ++ rest = fst (strip (concat segs)).
+Proof. exact (reader_dt_error segs fin dt). Qed.
 
 (* [core] A document is a list of items: runs of punctuation / numbers / literals / white space
    (no quote, apostrophe or slash -- JSON has none outside strings), string literals whose body
@@ -113,6 +157,10 @@ Print Assumptions c17_split_total.
 Print Assumptions c17_reader_is_strip.
 Print Assumptions c17_segmentation.
 Print Assumptions c17_limit.
+Print Assumptions c17_consumer.
+Print Assumptions c17_consumer_any.
+Print Assumptions c17_consumer_ends.
+Print Assumptions c17_read_error.
 Print Assumptions c17_strip.
 Print Assumptions c17_strip_spec.
 Print Assumptions c17_identity.
